@@ -29,7 +29,7 @@ GUARDS = {"x509_certs_verify", "x509_certs_verify_tlcp", "tls_verify_server_ecdh
           "tls13_verify_certificate_verify", "tls_client_verify_finish", "memcmp", "gmssl_secure_memcmp",
           "tls_record_get_handshake_certificate", "tls13_record_get_handshake_certificate", "tls13_process_certificate_list",
           "x509_certs_get_cert_by_index", "sm2_decrypt", "tls_record_decrypt", "tls13_record_decrypt"}
-VERSION = "4"
+VERSION = "5"
 
 
 def _text(src, node):
@@ -74,6 +74,10 @@ def _calls_in(n, src, state, path):
     _line(n, state)
     name = _callee(n)
     if name in GUARDS:
+        if name in ("memcmp", "gmssl_secure_memcmp"):
+            # which two buffers are compared is part of the guard (comparing a value with itself checks nothing)
+            args = [c for c in n.get("inner", [])[1:3]]
+            name = name + "(" + ",".join(_text(src, a) for a in args) + ")"
         test = "unchecked"
         child = n
         rest = []
